@@ -2631,7 +2631,8 @@ theorem mutateValue_og (X : Ctx) (hX : NoClassDnc X) (hW : World X h₀ A TAll)
     rcases hv4.1 with h | h
     · rw [h]; exact hog3
     · exact Or.inr h.good
-  refine (mvAttrTransforms_og X hX hW hM p hp v4 r3.2 hsafe4).mono (fun r hr => ⟨?_, ?_⟩)
+  refine (mvAttrTransforms_og X hX hW hM p hp v4 (r3.2 && v4 == r3.1)
+    (fun hs => hsafe4 (by simp only [Bool.and_eq_true] at hs; exact hs.1))).mono (fun r hr => ⟨?_, ?_⟩)
   · rcases hr.1 with h | h
     · rw [h]; exact hog4
     · exact Or.inr h.good
